@@ -529,8 +529,12 @@ theorem splitHostPort_plain (host port : Bytes) (hh : noSpecial host = true) (hp
 
 /-! ### the harness routes -/
 
+theorem hostMatch_noStar (rh site : Bytes) (h : site.contains cStar = false) :
+    hostMatch rh site = equalFold rh site := by
+  unfold hostMatch; rw [h]; rfl
+
 theorem routeFrom_some (rh : Bytes) (sites : List Bytes) (k j : Nat) (hr : routeFrom k rh sites = some j) :
-    k ≤ j ∧ ∃ s, sites[j - k]? = some s ∧ equalFold rh s = true := by
+    k ≤ j ∧ ∃ s, sites[j - k]? = some s ∧ hostMatch rh s = true := by
   induction sites generalizing k with
   | nil => simp [routeFrom] at hr
   | cons s ss ih =>
@@ -543,7 +547,7 @@ theorem routeFrom_some (rh : Bytes) (sites : List Bytes) (k j : Nat) (hr : route
       rw [this]; simpa using h2
 
 theorem routeFrom_none (rh : Bytes) (sites : List Bytes) (k : Nat) (hr : routeFrom k rh sites = none) :
-    ∀ s ∈ sites, equalFold rh s = false := by
+    ∀ s ∈ sites, hostMatch rh s = false := by
   induction sites generalizing k with
   | nil => simp
   | cons s ss ih =>
@@ -552,7 +556,7 @@ theorem routeFrom_none (rh : Bytes) (sites : List Bytes) (k : Nat) (hr : routeFr
     · cases hr
     · intro t ht
       rcases List.mem_cons.mp ht with h | h
-      · subst h; simpa using ‹¬ equalFold rh t = true›
+      · subst h; simpa using ‹¬ hostMatch rh t = true›
       · exact ih (k + 1) hr t h
 
 /-! ### brackets -/
